@@ -158,7 +158,8 @@ Bind(st, full, node) == [st EXCEPT !.names = (full :> node) @@ @]
 ParseType(x, ns, st) ==
   IF JIsStr(x) THEN
      IF x.cp \in PrimNames THEN Ok([k |-> PrimKind(x.cp), lt |-> NoLt], st)
-     ELSE LET full == Qualify(x.cp, ns) IN
+     \* "flat" reading (the form parse_schema returns): a reference is spelled with the full name of its definition, taken literally
+     ELSE LET full == IF "flat" \in DOMAIN st /\ st.flat THEN x.cp ELSE Qualify(x.cp, ns) IN
           IF full \in DOMAIN st.kindOf THEN Ok([k |-> "ref", name |-> full], st)
           \* a schema repository (C19): an undefined name that names a file is defined right here, at its first use,
           \* by that file's schema (a file is a schema of its own: no enclosing namespace)
@@ -222,6 +223,7 @@ Parse(raw) == ParseType(raw, <<>>, St0)
 \* parsing with a repository of per-type schemas: name -> raw schema
 ParseRepo(raw, repo) == ParseType(raw, <<>>, [seen |-> {}, kindOf |-> EmptyFn, names |-> EmptyFn, repo |-> repo])
 ParseWith(raw, names0) == ParseType(raw, <<>>, StFrom(names0))
+ParseFlat(raw) == ParseType(raw, <<>>, [seen |-> {}, kindOf |-> EmptyFn, names |-> EmptyFn, flat |-> TRUE])
 
 \* ---- helpers over parsed trees --------------------------------------------------
 Deref(t, names) == IF t.k = "ref" THEN names[t.name] ELSE t
